@@ -11,6 +11,9 @@ var _ chord.PrefixKV = (*MemoryKV)(nil)
 func (m *MemoryKV) PrefixAppend(ctx context.Context, prefix []byte, child []byte) error {
 	v, _ := m.fetchVal(prefix)
 
+	v.childrenMu.RLock()
+	defer v.childrenMu.RUnlock()
+
 	if !v.children.Add(string(child)) {
 		return chord.ErrKVPrefixConflict
 	}
@@ -22,6 +25,9 @@ func (m *MemoryKV) PrefixList(ctx context.Context, prefix []byte) ([][]byte, err
 	v, _ := m.fetchVal(prefix)
 
 	children := make([][]byte, 0)
+	// Range over the concurrent set is not a snapshot, keep appends and removes out meanwhile
+	v.childrenMu.Lock()
+	defer v.childrenMu.Unlock()
 	v.children.Range(func(value string) bool {
 		children = append(children, []byte(value))
 		return true
@@ -38,6 +44,9 @@ func (m *MemoryKV) PrefixContains(ctx context.Context, prefix []byte, child []by
 
 func (m *MemoryKV) PrefixRemove(ctx context.Context, prefix []byte, needle []byte) error {
 	v, _ := m.fetchVal(prefix)
+
+	v.childrenMu.RLock()
+	defer v.childrenMu.RUnlock()
 
 	v.children.Remove(string(needle))
 
